@@ -43,6 +43,8 @@ declarations:
 - decl: int f19(double x, int a, int off = 0, int stride = 1)
 - decl: int f25(const std::string & s)
 - decl: int f25(bool b)
+- decl: double f27(double x, int n = 1)
+- decl: int f27(const std::string & s, int n = 1)
 - decl: long long f23(long long a)
 - decl: long f24(long a, size_t n)
 - decl: class Cls
@@ -74,6 +76,8 @@ bool f18(bool flag);
 int f19(double x, int a, int off = 0, int stride = 1);
 int f25(const std::string &s);
 int f25(bool b);
+double f27(double x, int n = 1);
+int f27(const std::string &s, int n = 1);
 long long f23(long long a);
 long f24(long a, size_t n);
 class Cls { public: int value; explicit Cls(int v); ~Cls(); int add(int a); int add(const std::string &s); int get() const; void set(int v); int scale(int k = 2); int mix(int a, double b); };
@@ -98,6 +102,8 @@ bool f18(bool flag) { IN("f18(bool)"); vt_bool(flag); vt_end(); bool rv = !flag;
 int f19(double x, int a, int off, int stride) { IN("f19(double,int,int,int)"); vt_dbl(x); vt_int(a); vt_int(off); vt_int(stride); vt_end(); int rv = (int)(x * 4) + a * 10 + off * 100 + stride * 1000; OUT("f19(double,int,int,int)"); vt_int(rv); vt_end(); return rv; }
 int f25(const std::string &s) { IN("f25(const std::string&)"); vt_str(s.c_str(), (long)s.size()); vt_end(); int rv = 500 + (int)s.size(); OUT("f25(const std::string&)"); vt_int(rv); vt_end(); return rv; }
 int f25(bool b) { IN("f25(bool)"); vt_bool(b); vt_end(); int rv = b ? 601 : 600; OUT("f25(bool)"); vt_int(rv); vt_end(); return rv; }
+double f27(double x, int n) { IN("f27(double,int)"); vt_dbl(x); vt_int(n); vt_end(); double rv = x * n + 0.25; OUT("f27(double,int)"); vt_dbl(rv); vt_end(); return rv; }
+int f27(const std::string &s, int n) { IN("f27(const std::string&,int)"); vt_str(s.c_str(), (long)s.size()); vt_int(n); vt_end(); int rv = 700 + (int)s.size() * n; OUT("f27(const std::string&,int)"); vt_int(rv); vt_end(); return rv; }
 long long f23(long long a) { IN("f23(long long)"); vt_int((long)a); vt_end(); long long rv = a * 2 + 1; OUT("f23(long long)"); vt_int((long)rv); vt_end(); return rv; }
 long f24(long a, size_t n) { IN("f24(long,size_t)"); vt_int(a); vt_int((long)n); vt_end(); long rv = a + (long)n; OUT("f24(long,size_t)"); vt_int(rv); vt_end(); return rv; }
 Cls::Cls(int v) : value(v) { IN("Cls::Cls(int)"); vt_int(v); vt_end(); OUT("Cls::Cls(int)"); vt_obj(this); vt_end(); }
@@ -237,6 +243,8 @@ FUNCS = [
     ("f18", "module", 0, [("f18(bool)", ["bool"], "bool", 0)]),
     ("f19", "module", 0, [("f19(double,int,int,int)", ["dbl", "int", "int", "int"], "int", 2)]),
     ("f25", "module", 0, [("f25(const std::string&)", ["str"], "int", 0), ("f25(bool)", ["bool"], "int", 0)]),
+    # overloads with different result types, each with a default argument (the variants are visited interleaved)
+    ("f27", "module", 0, [("f27(double,int)", ["dbl", "int"], "dbl", 1), ("f27(const std::string&,int)", ["str", "int"], "int", 1)]),
     ("f23", "module", 0, [("f23(long long)", ["int"], "int", 0)]),
     ("f24", "module", 0, [("f24(long,size_t)", ["int", "int"], "int", 0)]),
     ("Cls", "module", 0, [("Cls::Cls(int)", ["int"], "obj", 0)]),
@@ -253,6 +261,7 @@ LT = {"int": "number", "dbl": "number", "str": "string", "bool": "boolean", "obj
 DEFAULTS = {"f13(int,int)": [{"t": "i", "v": [3]}, {"t": "i", "v": [4]}],
             "f17(double,int,bool)": [None, {"t": "i", "v": [7]}, {"t": "b", "v": [1]}],
             "Cls::scale(int)": [{"t": "i", "v": [2]}],
+            "f27(double,int)": [None, {"t": "i", "v": [1]}], "f27(const std::string&,int)": [None, {"t": "i", "v": [1]}],
             **{"k%s(%s,int)" % (_tag, _T): [None, {"t": "i", "v": [1]}] for _tag, _T, _ty, _log in LKINDS},
             "f19(double,int,int,int)": [None, None, {"t": "i", "v": [0]}, {"t": "i", "v": [1]}]}
 
